@@ -115,7 +115,17 @@ fn obs_edit(kind: &str, item: &Item) -> J {
         Item::Value(Value::InlineTable(t)) if kind == "inline" => t.into_iter().map(|(k, v)| json!([k.as_str(), id_value(&v)])).collect(),
         _ => iter.clone(),
     };
-    json!({"len": len, "empty": empty, "iter": iter, "owned": owned, "get": get, "has": has, "printed": printed_keys(item)})
+    // the mutable iterator shows the same entries (placeholders are entries for nobody)
+    let mut copy = item.clone();
+    let iter_mut: Vec<J> = match (&mut copy, kind) {
+        (Item::Table(t), "table") => t.iter_mut().map(|(k, v)| json!([k.get(), id_item(v)])).collect(),
+        (Item::Value(Value::InlineTable(t)), "inline") => t.iter_mut().map(|(k, v)| json!([k.get(), id_value(v)])).collect(),
+        (other, _) => match other.as_table_like_mut() {
+            Some(t) => t.iter_mut().map(|(k, v)| json!([k.get(), id_item(v)])).collect(),
+            None => iter.clone(),
+        },
+    };
+    json!({"len": len, "empty": empty, "iter": iter, "owned": owned, "iter_mut": iter_mut, "get": get, "has": has, "printed": printed_keys(item)})
 }
 
 fn apply_edit(kind: &str, item: &mut Item, o: &J) -> i64 {
@@ -277,7 +287,8 @@ fn obs_map(m: &toml::map::Map<String, toml::Value>) -> J {
     let mut printed: Vec<String> = toml::to_string(m).ok().and_then(|s| s.parse::<toml::Table>().ok()).map(|t| t.keys().cloned().collect()).unwrap_or_else(|| vec!["<<unparsable>>".into()]);
     printed.sort();
     let owned: Vec<J> = m.clone().into_iter().map(|(k, v)| json!([k, idv(&v)])).collect();
-    json!({"len": if consistent { m.len() } else { usize::MAX }, "empty": m.is_empty(), "iter": iter, "owned": owned, "get": get, "has": has, "printed": printed})
+    let iter_mut: Vec<J> = m.clone().iter_mut().map(|(k, v)| json!([k, idv(v)])).collect();
+    json!({"len": if consistent { m.len() } else { usize::MAX }, "empty": m.is_empty(), "iter": iter, "owned": owned, "iter_mut": iter_mut, "get": get, "has": has, "printed": printed})
 }
 
 fn apply_map(m: &mut toml::map::Map<String, toml::Value>, o: &J) -> i64 {
@@ -472,7 +483,7 @@ pub fn hist_events(args: &Args) {
                 }
                 Err(_) => {
                     step["ret"] = json!(-9);
-                    step["obs"] = json!({"len": 0, "empty": true, "iter": [], "owned": [], "get": {}, "has": {}, "printed": []});
+                    step["obs"] = json!({"len": 0, "empty": true, "iter": [], "owned": [], "iter_mut": [], "get": {}, "has": {}, "printed": []});
                     step["panic"] = json!(true);
                     steps.push(step);
                     break;
